@@ -738,6 +738,54 @@ Proof.
     + simpl in Hlen. rewrite <- Hlen. cbn [slice_loop]. unfold slice_one. rewrite K. reflexivity.
 Qed.
 
+(* ---------------------------------------------------------------- operations whose value operand is an element of the same array *)
+Lemma struct_elem P d i : inv P d -> d_kind d = EStruct -> (Z.to_nat i < d_len d)%nat ->
+  exists els bs, d_data d = Some els /\ nth_error els (Z.to_nat i) = Some (Blob bs) /\ N.of_nat (length bs) = d_esize d /\
+                 (0 < d_esize d)%N /\ nth (Z.to_nat i) (l_items (abs d)) Uninit = Blob bs /\ cell_ok (d_kind d) (d_esize d) (Blob bs).
+Proof.
+  intros I Hk Hi. pose proof I as (H1 & H2 & H3 & H4 & H5 & H6).
+  destruct (d_data d) as [els|] eqn:Hd; [|destruct H6 as (H6 & _); lia].
+  destruct H6 as [H6 H7].
+  destruct (nth_error_ex els (Z.to_nat i) ltac:(lia)) as [c Ec].
+  assert (Hin : In c (firstn (d_len d) els)) by (eapply nth_error_firstn_in; eauto).
+  rewrite Forall_forall in H7. pose proof (H7 c Hin) as Hc. destruct Hc as [Hn Hb]. destruct (Hb Hk) as (bs & -> & Hsz).
+  exists els, bs. split; [reflexivity|]. split; [exact Ec|]. split; [exact Hsz|]. split; [apply H5; auto; lia|]. split.
+  - unfold abs; cbn [l_items]. rewrite Hd. apply nth_firstn_some; auto.
+  - apply (H7 _ Hin).
+Qed.
+
+Lemma sim_pushse P d i : good_params P -> inv P d -> sim_goal P d (PushStructElem i).
+Proof.
+  intros GP I. unfold sim_goal. cbn [lstep step]. change (l_kind (abs d)) with (d_kind d). rewrite (abs_len _ _ I).
+  destruct (p_push_self_safe P) eqn:Sf; cbn [negb]; [|trivial].
+  destruct (ekind_eqb (d_kind d) EStruct) eqn:Ek; cbn [negb]; [|reflexivity].
+  destruct (in_range i (d_len d)) eqn:Er; cbn [negb]; [|reflexivity].
+  apply in_range_nat in Er. destruct Er as [Er _]. apply ekind_eqb_eq in Ek.
+  destruct (struct_elem P d i I Ek Er) as (els & bs & Hd & Ec & Hsz & Hpos & Hn & Hc).
+  rewrite Hd. cbn [rd]. rewrite Ec. rewrite andb_false_r.
+  pose proof I as (_ & _ & H3 & _).
+  destruct (push_struct_ok P d bs GP I Ek ltac:(rewrite Hsz; lia) (or_introl (eq_sym Hsz))) as (d' & S1 & S2 & S3 & S4 & S5).
+  exists d'. split; [exact S1|]. split; [|exact S2].
+  apply lst_eq; cbn [l_kind l_esize l_items with_items]; auto.
+  - change (l_kind (abs d')) with (d_kind d'). rewrite S3. symmetry. exact Ek.
+  - change (l_esize (abs d')) with (d_esize d'). rewrite S4. exact Hsz.
+  - rewrite S5, Hn. reflexivity.
+Qed.
+
+Lemma sim_setse P d i j : good_params P -> inv P d -> sim_goal P d (SetStructElem i j).
+Proof.
+  intros GP I. unfold sim_goal. cbn [lstep step]. change (l_kind (abs d)) with (d_kind d). rewrite (abs_len _ _ I).
+  destruct (ekind_eqb (d_kind d) EStruct) eqn:Ek; cbn [negb]; [|reflexivity].
+  destruct (in_range j (d_len d)) eqn:Ej; cbn [negb]; [|reflexivity].
+  destruct (in_range i (d_len d)) eqn:Ei; cbn [negb]; [|exists d; auto].
+  apply in_range_nat in Ej. destruct Ej as [Ej _]. apply in_range_nat in Ei. destruct Ei as [Ei _]. apply ekind_eqb_eq in Ek.
+  destruct (struct_elem P d j I Ek Ej) as (els & bs & Hd & Ec & Hsz & Hpos & Hn & Hc).
+  rewrite Hd. cbn [rd]. rewrite Ec.
+  destruct (sim_set_cell P d i (Blob bs) els I Hd Ei Hc) as (els' & W & A & Iv).
+  rewrite Hd in W. rewrite W. exists (set_data d els'). split; [reflexivity|]. split; [|exact Iv].
+  rewrite A, Hn. reflexivity.
+Qed.
+
 (* ---------------------------------------------------------------- the theorems *)
 Theorem step_refines P d o : good_params P -> inv P d -> sim_goal P d o.
 Proof.
@@ -757,6 +805,8 @@ Proof.
   - apply sim_gets; auto.
   - apply sim_sets; auto.
   - apply sim_pops; auto.
+  - apply sim_pushse; auto.
+  - apply sim_setse; auto.
 Qed.
 
 (* whole histories: whatever the typed-sequence machine does (outputs, final sequence, the point where an assert
